@@ -596,6 +596,14 @@ func (r *scanner) checkCompactRace(ctx context.Context, revision uint64, compact
 	if compact {
 		// compact operation, just try to set the compact revision
 		// if it's error, try next time
+		val, err := r.store.Get(ctx, r.config.CompactKey)
+		if err != nil && err != storage.ErrKeyNotFound {
+			return err
+		}
+		if len(val) >= 8 && binary.BigEndian.Uint64(val) > revision {
+			// never lower the compact revision, otherwise range on compacted revisions would be accepted again
+			return fmt.Errorf("compact revision %d less than compacted revision %d", revision, binary.BigEndian.Uint64(val))
+		}
 		bs := make([]byte, 8)
 		binary.BigEndian.PutUint64(bs, revision)
 		batch := r.store.BeginBatchWrite()
